@@ -25,7 +25,8 @@ MANIFEST = dict(
               "executed on real engines + replay of every state-graph edge")
 INVS = ["Transparent", "NoStaleValues", "KeysSound", "LruSane", "OnlyDocumentedError", "NoErrorWithoutMaps"]
 PROPS = ["CacheMoves"]
-KINDS = ["sel", "orm", "ins", "upd", "del"]
+KINDS = ["sel", "orm", "ins", "upd", "del", "txt"]
+TXT_GROUP = ["txt|a|none|none|none|named", "txt|a|none|none|none|pos", "txt|a|eq|none|none|named", "txt|a|eq|none|none|pos"]
 SELFTEST_GROUP = ["sel|a|eq|none|none|none", "sel|a|in|none|limit|none", "upd|a|eqand|none|none|ret", "orm|a|eq|none|none|selectin"]
 
 
@@ -198,6 +199,7 @@ def report_mismatches(chk, mism, what):
     for m in mism:
         a = m["act"] if isinstance(m["act"], dict) else {"a": m["act"]}
         chk.violation({"spec": "StmtCache", "action": a.get("a"), "kind": "conformance", "shape": a.get("sh"), "mode": a.get("mode"),
+                       "stmt_kind": (a.get("sh") or "-").split("|")[0],
                        "p": a.get("p"), "m": a.get("m"), "hit": a.get("hit"), "field": m["mismatch"].split(":")[0]},
                       what + m["mismatch"], m)
 
@@ -209,7 +211,8 @@ def main(chk):
     rt, table, vals, tc, tm = table_phase(chk, KINDS, nv, ["none"])
     for m in tm:
         if m["cat"] == "key":
-            chk.violation({"spec": "StmtShapes", "action": "cache_key", "kind": "key-collision", "shape": m["shape"], "field": m["field"]},
+            chk.violation({"spec": "StmtShapes", "action": "cache_key", "kind": "key-collision", "shape": m["shape"], "field": m["field"],
+                           "stmt_kind": m["shape"].split("|")[0]},
                           "two statements with equal cache keys do not compile to identical SQL / bind types: " + m["text"], m)
     calib = [m for m in tm if m["cat"] != "key"]
     if calib:
@@ -224,13 +227,16 @@ def main(chk):
     # 2. cache graphs of sampled groups of one-attribute neighbours
     ngroups = 6 if chk.quick else 12
     depth = 5 if chk.quick else 6
-    groups = pick_groups(names, rng, ngroups, size=3 if chk.quick else 4)
+    gnames = [n for n in names if not n.startswith("txt")]      # (the TextualSelect pair gets a graph of its own below)
+    groups = pick_groups(gnames, rng, ngroups, size=3 if chk.quick else 4)
     selftest = faulty_selftest(chk, SELFTEST_GROUP, 3, ["none"], cap)
     plans = [(g_, 3, ["none"], ["cached"], depth) for g_ in groups]
     if not chk.quick:
-        plans += [(g_, 4, ["none"], ["cached"], depth) for g_ in pick_groups(names, rng, 2, size=3)]
+        plans += [(g_, 4, ["none"], ["cached"], depth) for g_ in pick_groups(gnames, rng, 2, size=3)]
     # one small graph in which bypassing the cache (compiled_cache=None) is an action of its own
     plans.append((sorted(groups[1])[:3], 2, ["none"], ["cached", "nocache"], depth))
+    # TextualSelect, by-name and positional, sharing one cache
+    plans.append((TXT_GROUP, 2, ["none"], ["cached"], depth))
     G, graphs, runs, walks, extra, plan, steps, mism = graph_phase(chk, plans, cap, vals, table, rng, 200 if chk.quick else 2000, depth)
     cov = edge_stats(G)
     for need in ("cached/hit", "cached/miss", "nocache/off", "hit_other_values", "evicting", "Clear", "secondary/hit", "secondary/miss"):
